@@ -44,7 +44,8 @@ var (
 )
 
 // hInst appends instruction kind k to block b: 0 unnamed add, 1 named add,
-// 2 void call, 3 unnamed non-void call, 4 store, 5 fence, 6 named call.
+// 2 void call, 3 unnamed non-void call, 4 store, 5 fence, 6 named call,
+// 7 unnamed cleanuppad (a value of token type).
 func (s *hShape) inst(b *Block, k int) {
 	one := constant.NewInt(types.I32, 1)
 	switch k {
@@ -62,6 +63,8 @@ func (s *hShape) inst(b *Block, k int) {
 		b.NewStore(one, constant.NewNull(types.NewPointer(types.I32)))
 	case 5:
 		b.NewFence(enum.AtomicOrderingSequentiallyConsistent)
+	case 7:
+		s.add(b.NewCleanupPad(constant.None), true)
 	default:
 		i := b.NewCall(hIntCallee)
 		i.SetName("c")
@@ -70,7 +73,8 @@ func (s *hShape) inst(b *Block, k int) {
 }
 
 // hTerm sets terminator kind k: 0 ret, 1 void invoke, 2 unnamed non-void
-// invoke, 3 br to the block itself, 4 unnamed non-void callbr.
+// invoke, 3 br to the block itself, 4 unnamed non-void callbr, 5 unnamed
+// catchswitch (a value of token type).
 func (s *hShape) term(b *Block, k int) {
 	switch k {
 	case 0:
@@ -81,6 +85,8 @@ func (s *hShape) term(b *Block, k int) {
 		s.add(b.NewInvoke(hIntCallee, nil, b, b), true)
 	case 3:
 		b.NewBr(b)
+	case 5:
+		s.add(b.NewCatchSwitch(constant.None, []*Block{b}, nil), true)
 	default:
 		s.add(b.NewCallBr(hIntCallee, nil, b), true)
 	}
@@ -119,9 +125,9 @@ func hBuildFunc() *hShape {
 		}
 		ni := vfLen("insts"+string(rune('0'+bi)), 0, maxI)
 		for ii := 0; ii < ni; ii++ {
-			s.inst(b, vfChoice("ik"+string(rune('0'+bi))+string(rune('0'+ii)), 7))
+			s.inst(b, vfChoice("ik"+string(rune('0'+bi))+string(rune('0'+ii)), 8))
 		}
-		s.term(b, vfChoice("tk"+string(rune('0'+bi)), 5))
+		s.term(b, vfChoice("tk"+string(rune('0'+bi)), 6))
 	}
 	if vfTier() == 0 {
 		// a second, fixed block: numbering continues across blocks
